@@ -111,6 +111,7 @@ FieldCases(w) ==
   { Case("field", Esc(w) \o Colon \o X, {w}, {X}, ""),
     Case("field_range", Esc(w) \o <<58,91,49,32,84,79,32,50,93>>, {w}, {}, ""),
     Case("field_like", Esc(w) \o Colon \o X \o <<42>>, {w}, {X \o <<42>>}, ""),
+    Case("field_gt", Esc(w) \o <<58,62>> \o X, {w}, {X}, ""), Case("field_le", Esc(w) \o <<58,60,61,53>>, {w}, {}, ""),
     Case("field_list", Esc(w) \o <<58,40>> \o X \o <<32,79,82,32,121,41>>, {w}, {X, <<121>>}, "") }
   \cup (IF HasDQ(w) THEN {} ELSE {Case("field_q", Quote(w) \o Colon \o X, {w}, {X}, "")})
 NumCases(w) ==
